@@ -28,6 +28,7 @@ import (
 	"errors"
 	"fmt"
 	"math/big"
+	"os"
 	"runtime"
 	"sort"
 	"sync"
@@ -40,6 +41,7 @@ import (
 	"github.com/emmansun/gmsm/sm4"
 	"github.com/emmansun/gmsm/sm9"
 	"github.com/emmansun/gmsm/smx509"
+	vh "github.com/emmansun/gmsm/verifhook"
 
 	"golang.org/x/crypto/cryptobyte"
 	cbasn1 "golang.org/x/crypto/cryptobyte/asn1"
@@ -74,6 +76,7 @@ type material struct {
 	ccmCt, ccmNonce          []byte
 	envForShared             []byte // an own SM2 key enveloped for the shared SM2 key
 	envKey                   []byte // its scalar
+	sm9Seed                  uint64 // the scripted streams "signmaster"/"encmaster" of this seed generate the master keys
 }
 
 // objset is one cold set of shared objects.
@@ -83,18 +86,22 @@ type objset struct {
 	sm2PeerPub *ecdsa.PublicKey
 	ecdhPriv   *ecdh.PrivateKey
 	ecdhPeer   *ecdh.PublicKey
-	signMaster *sm9.SignMasterPrivateKey
-	signPub    *sm9.SignMasterPublicKey
-	signUser   *sm9.SignPrivateKey
-	encMaster  *sm9.EncryptMasterPrivateKey
-	encPub     *sm9.EncryptMasterPublicKey
-	encUser    *sm9.EncryptPrivateKey
-	block      cipher.Block
-	gcm        cipher.AEAD
-	roots      *smx509.CertPool
-	inters     *smx509.CertPool
-	leaf       *smx509.Certificate
-	leafB      *smx509.Certificate
+	// SM9 objects DECODED from bytes: every object owns its copy of the master public key (promoted fields)
+	sm9objs
+	// the same keys FRESH from generation and derivation, never serialised: master, PublicKey() and the user key made by
+	// GenerateUserKey share ONE internal master public key object with its lazily built caches. Every SM9 operation
+	// takes the representation its seed selects (sm9of).
+	fresh sm9objs
+	// group elements in the representation arithmetic leaves them in (projective, fresh results of a scalar
+	// multiplication, never marshalled) - see ops_points.go
+	g1s    []*vh.G1
+	g2s    []*vh.G2
+	block  cipher.Block
+	gcm    cipher.AEAD
+	roots  *smx509.CertPool
+	inters *smx509.CertPool
+	leaf   *smx509.Certificate
+	leafB  *smx509.Certificate
 	// a pool filled with AddCert / AddCertWithConstraint from parsed certificates (no lazy parsing, shared
 	// *Certificate values, a constraint callback that the library may call from many goroutines)
 	rootsParsed *smx509.CertPool
@@ -105,6 +112,29 @@ type objset struct {
 	// further AEADs made from the shared block
 	ccm   cipher.AEAD
 	gcm16 cipher.AEAD // 16-byte nonces: the counter is derived with GHASH
+}
+
+// sharedPoints is the number of shared projective G1 and of G2 elements of an object set. A projective point can be
+// normalised only once, so every point gives a round ONE chance to see two goroutines inside that step together: the
+// operations walk over all points in the same order. (2 in the pure-Go tier, where a pairing takes 50 times as long.)
+var sharedPoints = 8
+
+// sm9objs is one representation of the six shared SM9 objects.
+type sm9objs struct {
+	signMaster *sm9.SignMasterPrivateKey
+	signPub    *sm9.SignMasterPublicKey
+	signUser   *sm9.SignPrivateKey
+	encMaster  *sm9.EncryptMasterPrivateKey
+	encPub     *sm9.EncryptMasterPublicKey
+	encUser    *sm9.EncryptPrivateKey
+}
+
+// sm9of selects the decoded or the fresh representation of the shared SM9 objects for a call.
+func (o *objset) sm9of(s uint64) *sm9objs {
+	if (s>>12)&1 == 1 {
+		return &o.fresh
+	}
+	return &o.sm9objs
 }
 
 const hid = 0x01
@@ -137,6 +167,7 @@ func buildMaterial(r *mon.Rand) *material {
 		when: time.Date(2024, 6, 1, 0, 0, 0, 0, time.UTC),
 	}
 	seed := r.Uint64()
+	m.sm9Seed = seed
 	// scalars of the keys on NIST curves (valid for every curve used: top bit clear, odd)
 	m.legAKey, m.ecAKey, m.envKey = scalar(r), scalar(r), scalar(r)
 	m.legBKey = r.Bytes(48)
@@ -261,6 +292,30 @@ func (m *material) cold() *objset {
 	must(err)
 	o.encUser, err = sm9.UnmarshalEncryptPrivateKeyASN1(userKeyDER(eu.Bytes(), warmEnc.PublicKey().Bytes()))
 	must(err)
+	// the fresh representation: generated from the same scripted stream as the key in signMasterDER/encMasterDER, so it
+	// is the same key, but it has never been through an encoder or decoder
+	f := &o.fresh
+	f.signMaster, err = sm9.GenerateSignMasterKey(script(m.sm9Seed, "signmaster"))
+	must(err)
+	f.signPub = f.signMaster.PublicKey()
+	f.signUser, err = f.signMaster.GenerateUserKey(m.uid, hid)
+	must(err)
+	f.encMaster, err = sm9.GenerateEncryptMasterKey(script(m.sm9Seed, "encmaster"))
+	must(err)
+	f.encPub = f.encMaster.PublicKey()
+	f.encUser, err = f.encMaster.GenerateUserKey(m.uid, hidEnc)
+	must(err)
+	if !f.signMaster.Equal(o.signMaster) || !f.encMaster.Equal(o.encMaster) || !f.signUser.Equal(o.signUser) || !f.encUser.Equal(o.encUser) {
+		panic("c20 setup: the fresh SM9 keys are not the keys that were decoded")
+	}
+	pr := mon.NewRand(m.sm9Seed, "shared projective points")
+	for i := 0; i < sharedPoints; i++ {
+		g1, err := new(vh.G1).ScalarBaseMult(scalar(pr))
+		must(err)
+		g2, err := new(vh.G2).ScalarBaseMult(scalar(pr))
+		must(err)
+		o.g1s, o.g2s = append(o.g1s, g1), append(o.g2s, g2)
+	}
 	o.block, err = sm4.NewCipher(m.sm4Key)
 	must(err)
 	o.gcm, err = cipher.NewGCM(o.block)
@@ -294,6 +349,55 @@ func (m *material) cold() *objset {
 		}
 	}
 	return o
+}
+
+// state serialises the value of every shared object that has one. It is taken single-threaded after a round, of the
+// object set the goroutines shared and of the set the sequential replay used: using an object from many goroutines must
+// leave it with the value that using it from one goroutine leaves (a scalar restored wrongly, a point normalised twice,
+// a cache poisoned are differences that survive the round even when no call of the round returned a wrong result).
+func (o *objset) state() [][2]string {
+	hx := func(b []byte, err error) string {
+		if err != nil {
+			return "ERR:" + err.Error()
+		}
+		return fmt.Sprintf("%x", b)
+	}
+	ec := func(k *sm2.PrivateKey) string { return fmt.Sprintf("%x/%x/%x", k.D, k.X, k.Y) }
+	out := [][2]string{
+		{"sm2 private key", ec(o.sm2Priv)},
+		{"sm2 public key", fmt.Sprintf("%x/%x", o.sm2Pub.X, o.sm2Pub.Y)},
+		{"sm2 peer public key", fmt.Sprintf("%x/%x", o.sm2PeerPub.X, o.sm2PeerPub.Y)},
+		{"legacy key A", ec(o.legA)}, {"legacy key B", ec(o.legB)},
+		{"legacy public key A", fmt.Sprintf("%x/%x", o.legAPub.X, o.legAPub.Y)}, {"legacy public key B", fmt.Sprintf("%x/%x", o.legBPub.X, o.legBPub.Y)},
+		{"legacy ecdsa key A", fmt.Sprintf("%x/%x/%x", o.ecA.D, o.ecA.X, o.ecA.Y)},
+		{"ecdh private key", hx(o.ecdhPriv.Bytes(), nil) + "/" + hx(o.ecdhPriv.PublicKey().Bytes(), nil)},
+		{"ecdh peer public key", hx(o.ecdhPeer.Bytes(), nil)},
+	}
+	for i := range o.g1s {
+		out = append(out, [2]string{fmt.Sprintf("shared projective G1 #%d", i), hx(o.g1s[i].Marshal(), nil)},
+			[2]string{fmt.Sprintf("shared projective G2 #%d", i), hx(o.g2s[i].Marshal(), nil)})
+	}
+	for i, k := range []*sm9objs{&o.sm9objs, &o.fresh} {
+		rep := []string{"decoded", "fresh"}[i]
+		out = append(out,
+			[2]string{rep + " sm9 sign master", hx(k.signMaster.MarshalASN1()) + "/" + hx(k.signMaster.PublicKey().Bytes(), nil)},
+			[2]string{rep + " sm9 sign master public key", hx(k.signPub.MarshalASN1())},
+			[2]string{rep + " sm9 sign user key", hx(k.signUser.MarshalASN1()) + "/" + hx(k.signUser.MasterPublic().Bytes(), nil)},
+			[2]string{rep + " sm9 encrypt master", hx(k.encMaster.MarshalASN1()) + "/" + hx(k.encMaster.PublicKey().Bytes(), nil)},
+			[2]string{rep + " sm9 encrypt master public key", hx(k.encPub.MarshalASN1())},
+			[2]string{rep + " sm9 encrypt user key", hx(k.encUser.MarshalASN1()) + "/" + hx(k.encUser.MasterPublic().Bytes(), nil)})
+	}
+	if o.roots != nil {
+		for _, p := range [][2]any{{"roots", o.roots}, {"intermediates", o.inters}, {"parsed roots", o.rootsParsed}} {
+			var b []byte
+			for _, sub := range p[1].(*smx509.CertPool).Subjects() {
+				b = append(b, sub...)
+			}
+			out = append(out, [2]string{"pool " + p[0].(string), hx(b, nil)})
+		}
+		out = append(out, [2]string{"leaf certificates", hx(append(append([]byte{}, o.leaf.Raw...), o.leafB.Raw...), nil)})
+	}
+	return out
 }
 
 // chainConstraint is the extra constraint of the second root of the parsed pool: the library documents that it may be
@@ -368,7 +472,17 @@ func bl(v bool) []byte {
 
 // ops is the operation table of the rounds: the operations of the first versions (baseOps) followed by the derivation,
 // key-agreement, legacy-curve and mode/pool operations of the other files of this package.
-var ops = concatOps(baseOps, deriveOps, agreeOps, legacyOps, modeOps)
+// pointOps (ops_points.go: shared PROJECTIVE bn256 points through the verif hook) are NOT part of the verdict path:
+// no public constructor hands out a projective point (they normalise when they fill their byte caches), so a change
+// that makes an internal function normalise its argument in place (seeded c09-r5-m3) leaves property C20 intact at the
+// public API; alarming on it would be an alarm on a tree where the property holds. The operations are kept for
+// development (VERIF_C20_INTERNAL_POINTS=1), never set by a registered command.
+var ops = func() []op {
+	if os.Getenv("VERIF_C20_INTERNAL_POINTS") == "1" {
+		return concatOps(baseOps, deriveOps, agreeOps, legacyOps, modeOps, pointOps)
+	}
+	return concatOps(baseOps, deriveOps, agreeOps, legacyOps, modeOps)
+}()
 
 func concatOps(parts ...[]op) []op {
 	var out []op
@@ -382,7 +496,13 @@ func concatOps(parts ...[]op) []op {
 // goroutine an operation of ONE family, so that derivations from a parent, its accessors and its first uses collide.
 // The family "own" is the set of operations on objects that only the calling goroutine knows: their first uses
 // collide with the first uses of OTHER objects of the same kind (scratch space shared between objects).
-var families = []string{"sm2", "legacy", "ecdh", "sm9sign", "sm9enc", "block", "pool", "own"}
+var families = func() []string {
+	f := []string{"sm2", "legacy", "ecdh", "sm9sign", "sm9enc", "block", "pool", "own"}
+	if os.Getenv("VERIF_C20_INTERNAL_POINTS") == "1" {
+		f = append(f, "points")
+	}
+	return f
+}()
 
 func opsOfFamily(fam string) []int {
 	var idx []int
@@ -438,42 +558,42 @@ var baseOps = []op{
 		return k.Bytes()
 	}},
 	{"sm9.SignASN1", "sm9sign", func(o *objset, m *material, s uint64) []byte {
-		return res(sm9.SignASN1(script(s, "f"), o.signUser, m.hash))
+		return res(sm9.SignASN1(script(s, "f"), o.sm9of(s).signUser, m.hash))
 	}},
 	{"sm9.VerifyASN1", "sm9sign", func(o *objset, m *material, s uint64) []byte {
-		return bl(sm9.VerifyASN1(o.signPub, m.uid, hid, m.hash, m.sm9Sig))
+		return bl(sm9.VerifyASN1(o.sm9of(s).signPub, m.uid, hid, m.hash, m.sm9Sig))
 	}},
 	{"sm9.SignMaster.GenerateUserKey", "sm9sign", func(o *objset, m *material, s uint64) []byte {
-		k, err := o.signMaster.GenerateUserKey([]byte("other"), hid)
+		k, err := o.sm9of(s).signMaster.GenerateUserKey([]byte("other"), hid)
 		if err != nil {
 			return res(nil, err)
 		}
 		return k.Bytes()
 	}},
-	{"sm9.SignMaster.PublicKey", "sm9sign", func(o *objset, m *material, s uint64) []byte { return o.signMaster.PublicKey().Bytes() }},
-	{"sm9.SignPrivateKey.MasterPublic", "sm9sign", func(o *objset, m *material, s uint64) []byte { return o.signUser.MasterPublic().Bytes() }},
+	{"sm9.SignMaster.PublicKey", "sm9sign", func(o *objset, m *material, s uint64) []byte { return o.sm9of(s).signMaster.PublicKey().Bytes() }},
+	{"sm9.SignPrivateKey.MasterPublic", "sm9sign", func(o *objset, m *material, s uint64) []byte { return o.sm9of(s).signUser.MasterPublic().Bytes() }},
 	{"sm9.WrapKey", "sm9enc", func(o *objset, m *material, s uint64) []byte {
-		k, c, err := o.encPub.WrapKey(script(s, "g"), m.uid, hidEnc, 32)
+		k, c, err := o.sm9of(s).encPub.WrapKey(script(s, "g"), m.uid, hidEnc, 32)
 		return res(append(k, c...), err)
 	}},
 	{"sm9.UnwrapKey", "sm9enc", func(o *objset, m *material, s uint64) []byte {
-		return res(o.encUser.UnwrapKey(m.uid, m.sm9Wrapped, 32))
+		return res(o.sm9of(s).encUser.UnwrapKey(m.uid, m.sm9Wrapped, 32))
 	}},
 	{"sm9.Encrypt", "sm9enc", func(o *objset, m *material, s uint64) []byte {
-		return res(sm9.Encrypt(script(s, "h"), o.encPub, m.uid, hidEnc, m.msg, nil))
+		return res(sm9.Encrypt(script(s, "h"), o.sm9of(s).encPub, m.uid, hidEnc, m.msg, nil))
 	}},
 	{"sm9.Decrypt", "sm9enc", func(o *objset, m *material, s uint64) []byte {
-		return res(sm9.Decrypt(o.encUser, m.uid, m.sm9Ct, nil))
+		return res(sm9.Decrypt(o.sm9of(s).encUser, m.uid, m.sm9Ct, nil))
 	}},
 	{"sm9.EncMaster.GenerateUserKey", "sm9enc", func(o *objset, m *material, s uint64) []byte {
-		k, err := o.encMaster.GenerateUserKey([]byte("other"), hidEnc)
+		k, err := o.sm9of(s).encMaster.GenerateUserKey([]byte("other"), hidEnc)
 		if err != nil {
 			return res(nil, err)
 		}
 		return k.Bytes()
 	}},
 	{"sm9.KeyExchange.Init", "sm9enc", func(o *objset, m *material, s uint64) []byte {
-		ke := o.encUser.NewKeyExchange(m.uid, []byte("peer"), 16, true)
+		ke := o.sm9of(s).encUser.NewKeyExchange(m.uid, []byte("peer"), 16, true)
 		defer ke.Destroy()
 		return res(ke.InitKeyExchange(script(s, "i"), hidEnc))
 	}},
